@@ -240,6 +240,31 @@ func hotspotMod() *parserMod {
 			!(r.ControlBehavior == hotspot.Reject && r.BurstCount < 0) && !(r.ControlBehavior == hotspot.Throttling && r.MaxQueueingTimeMs < 0)
 		js := fmt.Sprintf(`{"id":%s,"resource":%s,"metricType":%d,"controlBehavior":%d,"paramIndex":%d,"threshold":%d,"maxQueueingTimeMs":%d,"burstCount":%d,"durationInSec":%d,"paramsMaxCapacity":%d,"specificItems":[%s]}`,
 			q(r.ID), q(r.Resource), r.MetricType, r.ControlBehavior, r.ParamIndex, r.Threshold, r.MaxQueueingTimeMs, r.BurstCount, r.DurationInSec, r.ParamsMaxCapacity, strings.Join(items, ","))
+		if rng.Intn(2) == 0 {
+			// the same rule written sparsely: fields holding their zero value (and an empty item list) are left out,
+			// as hand-written configuration does - whatever an earlier payload said in the same position
+			parts := []string{`"id":` + q(r.ID)}
+			add := func(name string, v int64) {
+				if v != 0 {
+					parts = append(parts, fmt.Sprintf(`"%s":%d`, name, v))
+				}
+			}
+			if r.Resource != "" {
+				parts = append(parts, `"resource":`+q(r.Resource))
+			}
+			add("metricType", int64(r.MetricType))
+			add("controlBehavior", int64(r.ControlBehavior))
+			add("paramIndex", int64(r.ParamIndex))
+			add("threshold", r.Threshold)
+			add("maxQueueingTimeMs", r.MaxQueueingTimeMs)
+			add("burstCount", r.BurstCount)
+			add("durationInSec", r.DurationInSec)
+			add("paramsMaxCapacity", r.ParamsMaxCapacity)
+			if len(items) > 0 {
+				parts = append(parts, `"specificItems":[`+strings.Join(items, ",")+`]`)
+			}
+			js = "{" + strings.Join(parts, ",") + "}"
+		}
 		return gen{ID: id, JSON: js, Canon: canonHot(r), Valid: valid}
 	}
 	return m
